@@ -49,7 +49,8 @@ impl BigInt
 
     pub fn from_bytes_be(bytes: &[u8]) -> BigInt
     {
-        let bigint = num_bigint::BigInt::from_signed_bytes_be(&bytes);
+        // Bytes (of a string or an included file) denote a non-negative number
+        let bigint = num_bigint::BigInt::from_bytes_be(num_bigint::Sign::Plus, &bytes);
         BigInt {
             bigint,
             size: Some(bytes.len() * 8),
